@@ -33,6 +33,9 @@ Data == <<
   Series(<< <<"__name__","ho2">>, <<"a","x">> >>, [i \in 1..8 |-> Smp(i + 4, "f", 10 * i)]),
   Series(<< <<"__name__","hp">>, <<"a","x">> >>, [i \in 1..6 |-> Smp(i - 1, IF i = 6 THEN "s" ELSE "f", i)]),
   Series(<< <<"__name__","hp2">>, <<"a","x">> >>, [i \in 1..6 |-> Smp(i + 6, "f", 10 * i)]),
+  \* samples before the epoch (negative timestamps), through it and after it
+  Series(<< <<"__name__","old">>, <<"a","x">> >>, [i \in 1..17 |-> Smp(i - 9, IF i = 5 THEN "s" ELSE "f", i)]),
+  Series(<< <<"__name__","old">>, <<"a","y">> >>, [i \in 1..6 |-> Smp(3 * i - 10, "f", 100 + i)]),
   Series(<< <<"__name__","r">>, <<"A","first">>, <<"__meta","k">>, <<"a","x">>, <<"b","9">>, <<"zz","last">> >>, [i \in 1..Span |-> Smp(i - 1, "f", 1)]) >>
 
 MN == <<Sel(<<Re("__name__", "m|n", <<"m", "n">>)>>)>>
@@ -47,7 +50,11 @@ HQ3 == Join(<<NumS("0.5")>>, <<Sel(<<Metric("h3_bucket")>>)>>, LAMBDA a, b : Fn(
 TINYX == <<Sel(<<Metric("tiny"), Eq("a", "x")>>)>>
 HO == <<Sel(<<Re("__name__", "ho|ho2", <<"ho", "ho2">>)>>)>>
 HP == <<Sel(<<Re("__name__", "hp|hp2", <<"hp", "hp2">>)>>)>>
+OLD == <<Sel(<<Metric("old")>>)>>
 Plans == <<
+  OLD, F1("timestamp", OLD), Over(OLD, LAMBDA c : Agg("sum", TRUE, <<>>, <<c>>)), <<RFn("rate", <<Metric("old")>>, 3, 0, "none", 0)>>,
+  <<RFn("sum_over_time", <<Metric("old")>>, 2, 1, "none", 0)>>, <<SelOff(<<Metric("old")>>, 2)>>, <<SelAt(<<Metric("old")>>, 0, "lit", -3)>>,
+  Join(OLD, <<Fn("time", <<>>)>>, LAMBDA a, b : Bin("-", a, b)), <<Fn("time", <<>>)>>, <<RFn("last_over_time", <<Metric("old")>>, 2, 0, "start", 0)>>,
   Join(HO, <<Num(5)>>, LAMBDA a, b : Bin("*", a, b)), Join(<<Num(5)>>, HO, LAMBDA a, b : Bin("-", a, b)), Over(HO, LAMBDA c : NegN(c)), F1("abs", HO),
   Join(HO, <<Num(2)>>, LAMBDA a, b : BinM(">", a, b, TRUE, "1:1", FALSE, <<>>, <<>>)),
   Join(<<Num(1)>>, Join(HO, <<Num(5)>>, LAMBDA a, b : Bin("*", a, b)), LAMBDA a, b : Agg("topk", TRUE, <<>>, <<a, b>>)),
@@ -90,9 +97,12 @@ Plans == <<
 
 VARIABLE g
 \* r0: 14 steps from the epoch itself (the first step has timestamp 0)
-Init == g \in [p : 1..Len(Plans), w : {"instant", "r12", "r4", "r0"}]
+\* rneg: 14 steps from six ticks before the epoch; ineg: an instant query before the epoch
+Init == g \in [p : 1..Len(Plans), w : {"instant", "r12", "r4", "r0", "rneg", "ineg"}]
 Next == UNCHANGED g
-ScnOf(x) == Scn("wf", "C19", TickMs, Data, Plans[x.p], IF x.w = "r0" THEN 0 ELSE 1, IF x.w = "instant" THEN 1 ELSE IF x.w = "r12" THEN 12 ELSE IF x.w = "r0" THEN 13 ELSE 10,
-                IF x.w = "instant" THEN 0 ELSE IF x.w \in {"r12", "r0"} THEN 1 ELSE 3, 2, 0)
+ScnOf(x) == Scn("wf", "C19", TickMs, Data, Plans[x.p],
+                CASE x.w = "r0" -> 0 [] x.w = "rneg" -> -6 [] x.w = "ineg" -> -4 [] OTHER -> 1,
+                CASE x.w = "instant" -> 1 [] x.w = "r12" -> 12 [] x.w = "r0" -> 13 [] x.w = "rneg" -> 7 [] x.w = "ineg" -> -4 [] OTHER -> 10,
+                IF x.w \in {"instant", "ineg"} THEN 0 ELSE IF x.w \in {"r12", "r0", "rneg"} THEN 1 ELSE 3, 2, 0)
 EmitWF == Emit(ScnOf(g))
 =============================================================================
